@@ -50,6 +50,17 @@ def secs(ticks: int) -> float:
     return ticks / 64.0
 
 
+def tsecs(cfg: dict, v: int) -> float:
+    """a scheduled time of a stage as the float the user would write: ticks/64, or — for stages marked "ms" —
+    milliseconds/1000 (decimals such as 4.1 whose float->ns conversion truncates below the value)"""
+    return v / 1000.0 if cfg.get("ms") else v / 64.0
+
+
+def tns(cfg: dict, v: int) -> int:
+    """...and the instant the repo derives from it (documented quantisation: int(seconds * 1e9))"""
+    return int(tsecs(cfg, v) * 1_000_000_000)
+
+
 def V(inv: str, cls: str, detail: str, msg: str = "") -> Violation:
     return Violation(f"C08/{inv}/{cls}/{detail}", msg)
 
@@ -426,7 +437,11 @@ class QRStage(Stage):
         elif self.kind == "shifted":
             self.shifts = [tuple(s) for s in cfg["shifts"]]
             self.default_cap = cfg.get("default", 0)
-            sched = ShiftSchedule([Shift(secs(a), secs(b), c) for a, b, c in self.shifts], default_capacity=self.default_cap)
+            sched = ShiftSchedule([Shift(tsecs(cfg, a), tsecs(cfg, b), c) for a, b, c in self.shifts],
+                                  default_capacity=self.default_cap)
+            self.shift_ns = [(tns(cfg, a), tns(cfg, b), c) for a, b, c in self.shifts]
+            if any(lo != round(tsecs(cfg, a) * 1e9) for (lo, _, _), (a, _, _) in zip(self.shift_ns, self.shifts)):
+                ctx.hit("probe.shift_boundary_truncates_below_float")
             self.F = ShiftedServer(name, sched, service_time=secs(svc["ticks"]), downstream=downstream, policy=policy)
             self.cls = "ShiftedServer"
             self.limit = None
@@ -460,6 +475,8 @@ class QRStage(Stage):
         if self.kind in ("shifted", "reneging") and self.Q.policy is policy and \
                 not (cfg["policy"]["type"] == "fifo" and cfg["policy"].get("cap") is None):
             ctx.hit("probe.configured_policy_on_shifted_or_reneging")
+        if self.policy.capacity == 0:
+            ctx.hit("probe.zero_capacity_queue")
         self.extra_sink = extra_sink
         self.last_acc = self.last_drop = 0
         self.last_rej = self.last_ren = self.last_done = 0
@@ -512,8 +529,7 @@ class QRStage(Stage):
 
     def sched_cap(self, t_ns, before=False):
         """capacity the schedule prescribes at t (or just before t)"""
-        for a, b, c in self.shifts:
-            lo, hi = a * TICK_NS, b * TICK_NS
+        for lo, hi, c in self.shift_ns:
             if (lo < t_ns <= hi) if before else (lo <= t_ns < hi):
                 return c
         return self.default_cap
@@ -744,6 +760,10 @@ class QRStage(Stage):
             self.ctx.hit("probe.shift_capacity_raised")
             if old == 0 and self.waiting:
                 self.ctx.hit("probe.shift_raise_from_zero_with_backlog")
+            if self.waiting and self.cfg.get("ms") and any(
+                    lo == self.ctx.now_ns and lo != round(tsecs(self.cfg, a) * 1e9)
+                    for (lo, _, _), (a, _, _) in zip(self.shift_ns, self.shifts)):
+                self.ctx.hit("probe.raise_at_truncated_boundary_with_backlog")
         if new == 0:
             self.ctx.hit("probe.shift_zero_capacity")
 
@@ -1000,8 +1020,11 @@ class BatchStage(Stage):
     def __init__(self, ctx, idx, cfg, downstream):
         super().__init__(ctx, idx, cfg)
         self.size, self.timeout = cfg["size"], cfg.get("timeout_ticks", 0)
+        self.timeout_ns = tns(cfg, self.timeout)
+        if self.timeout and self.timeout_ns != round(tsecs(cfg, self.timeout) * 1e9):
+            ctx.hit("probe.batch_timeout_truncates_below_float")
         self.F = BatchProcessor(f"S{idx}", downstream, batch_size=self.size, process_time=secs(cfg["proc_ticks"]),
-                                timeout_s=secs(self.timeout))
+                                timeout_s=tsecs(cfg, self.timeout))
         self.buf: list[int] = []
         self.first_t = None
         self.batches: deque = deque()
@@ -1080,7 +1103,7 @@ class BatchStage(Stage):
             raise V("strand", self.cls, detail,
                     f"t={prev_ns}ns: {len(self.buf)} items buffered, batch_size={self.size}, "
                     f"timeout {self.timeout} ticks, clock moves on")
-        if self.buf and self.timeout > 0 and prev_ns - self.first_t >= self.timeout * TICK_NS:
+        if self.buf and self.timeout > 0 and prev_ns - self.first_t >= self.timeout_ns:
             raise V("strand", self.cls, "partial-batch-past-timeout",
                     f"t={prev_ns}ns: oldest buffered item arrived at {self.first_t}ns, timeout {self.timeout} ticks")
 
@@ -1184,7 +1207,9 @@ class GateStage(Stage):
         super().__init__(ctx, idx, cfg)
         self.qcap = cfg.get("qcap", 0)
         self.is_open = bool(cfg.get("initially_open", True))
-        self.F = GateController(f"S{idx}", downstream, schedule=[(secs(a), secs(b)) for a, b in cfg["schedule"]],
+        if any(tns(cfg, x) != round(tsecs(cfg, x) * 1e9) for ab in cfg["schedule"] for x in ab):
+            ctx.hit("probe.gate_time_truncates_below_float")
+        self.F = GateController(f"S{idx}", downstream, schedule=[(tsecs(cfg, a), tsecs(cfg, b)) for a, b in cfg["schedule"]],
                                 initially_open=self.is_open, queue_capacity=self.qcap)
         self.q: deque = deque()
         self.n_pass = self.n_rej = 0
